@@ -289,6 +289,10 @@ class Apps(object):
                                 ('/jsonl1', ep, JSONRender(dev_mode=True, encoding='latin-1')),
                                 ('/streaml1', ep, JSONRender(streaming=True, dev_mode=True, encoding='iso-8859-1')),
                                 ('/jsonpl1', ep, JSONPRender(dev_mode=True, encoding='latin-1'))])
+        from clastic.middleware import GzipMiddleware
+        # the renderers behind GzipMiddleware: what the client receives, decoded, is what the renderer produced, and
+        # Content-Length is the number of bytes sent
+        self.gz_app = Application([('/basic', ep, render_basic), ('/json', ep, render_json_dev)], middlewares=[GzipMiddleware()])
         self.ep = ep
 
     def fresh_basic(self):
@@ -337,6 +341,34 @@ def check_value(acc, A, desc, factory, info, fresh_cache):
     sample_value = factory()
     kind = info['kind']
     vname = desc[0] if kind != 'container' else 'container'
+    for gz_route in ('/basic', '/json'):
+        for fmt in (None, 'html'):
+            q = 'format=' + fmt if fmt else ''
+            plain = wsgi.call(A.gz_app, gz_route, 'GET', query=q)
+            res = wsgi.call(A.gz_app, gz_route, 'GET', query=q, headers={'Accept-Encoding': 'gzip'})
+            acc.evaluated += 1
+            acc.transitions += 2
+            acc.validated += 1
+            case = {'value': desc, 'route': gz_route, 'format': fmt, 'accept': None, 'callback': None, 'method': 'GET', 'gzip': True}
+            if info['kind'] == 'generator' or plain.raised is not None or res.raised is not None:
+                continue
+            body = res.body or b''
+            cl = res.header('Content-Length')
+            msg = None
+            if cl is not None and int(cl) != len(body):
+                msg = ('gzip-content-length', 'Content-Length %s, %d bytes sent' % (cl, len(body)))
+            else:
+                if (res.header('Content-Encoding') or '').lower() == 'gzip':
+                    import gzip as _gz
+                    try:
+                        body = _gz.decompress(body)
+                    except Exception as e:
+                        msg = ('gzip-body', 'body is not gzip: %s' % e)
+                if msg is None and (res.code, body) != (plain.code, plain.body or b''):
+                    msg = ('gzip-differs', 'decoded response differs from the one sent without compression')
+            if msg:
+                acc.violation('C17:%s:%s:%s' % (msg[0], gz_route.strip('/'), desc[0] if info['kind'] == 'container' else vname),
+                              '%s; value %r via %s?%s behind GzipMiddleware -> %s' % (msg[1], desc, gz_route, q, res.status), case)
     for route in ('/basic', '/basic#POST', '/basic#DELETE', '/basicdoc', '/basicexec', '/json', '/jsondev', '/stream', '/jsonp', '/jsonl1', '/streaml1', '/jsonpl1'):
         route, _, method = route.partition('#')
         method = method or 'GET'
